@@ -478,14 +478,12 @@ func init() {
 	reg("math.IsNaN", func(e *Exec, args []Value, fn *ssa.Function) Value {
 		return e.tc.FUn(OpFIsNaN, args[0].(*Term))
 	})
-	reg("math.Floor", func(e *Exec, args []Value, fn *ssa.Function) Value {
-		t := args[0].(*Term)
-		if t.IsConst() {
-			return e.tc.FConst(floorF(t))
-		}
-		e.unsupported("math.Floor of symbolic float")
-		return nil
-	})
+	for i, n := range []string{"Round", "Floor", "Ceil", "Trunc", "RoundToEven"} {
+		mode := uint64(i)
+		reg("math."+n, func(e *Exec, args []Value, fn *ssa.Function) Value {
+			return e.tc.FRound(args[0].(*Term), mode)
+		})
+	}
 
 	// ---- reflect-free helpers ----
 	reg("internal/reflectlite.TypeOf", func(e *Exec, args []Value, fn *ssa.Function) Value {
